@@ -4,7 +4,7 @@ Model of conditional and range responses (property C11):
 parse_if_range_header, parse_range_header, is_byte_range_valid}`, `datastructures.range.Range`
 (`range_for_length`, `to_content_range_header`), `wrappers.response.Response`
 (`_is_range_request_processable`, `_process_range_request`, `make_conditional`, the body choice of
-`get_app_iter`) and `wsgi._RangeWrapper`, all as repaired by f11af11 / 3e1f661.
+`get_app_iter`) and `wsgi._RangeWrapper`, all as repaired by f11af11 / 3e1f661 / 64fcb6a / 84dd3fe / a63ec67.
 
 Opaque (validated by the streams, not verified): `parse_date` (the harness supplies the parsed
 instant of every date header as integer epoch seconds), `str.lower()` (ASCII only), the file
@@ -19,8 +19,9 @@ abbrev Str := List Char
 
 /-! ## entity tags -/
 
-/-- `ETags`: the two frozensets as lists (only membership is ever asked). An element `none` is the
-Python `None` that `parse_etags` appends for the empty quoted tag `""`. -/
+/-- `ETags`: the two frozensets as lists (only membership is ever asked). Elements are optional
+strings for historical reasons (before a63ec67 `parse_etags` stored `None` for the tag `""`);
+`parseEtags` now only produces `some`. -/
 structure ETags where
   strong : List (Option Str)
   weak : List (Option Str)
@@ -83,7 +84,7 @@ def parseEtagsLoop : Nat → Str → List (Option Str) → List (Option Str) →
         | _ => none
       let m : Option (Option Str × Bool × Str) :=
         match quoted with
-        | some (tag, rest) => some (if tag.isEmpty then none else some tag, false, rest)
+        | some (tag, rest) => some (some tag, false, rest)   -- `elif quoted is not None` (a63ec67)
         | none =>
           match rawTag body [] with
           | some (tag, rest) => some (some tag, tag == ['*'], rest)
@@ -221,7 +222,9 @@ def parseRangeItems : List Str → Int → List (Int × Option Int) → Option (
       else
         match plainInt item with
         | none => none
-        | some b => parseRangeItems rest (-1) ((b, none) :: acc)
+        | some b =>
+          if b == 0 then none           -- suffix length zero selects nothing (84dd3fe)
+          else parseRangeItems rest (-1) ((b, none) :: acc)
     else
       let beginStr := Py.strip (item.takeWhile (· != '-'))
       let endStr := Py.strip ((item.dropWhile (· != '-')).drop 1)
@@ -367,13 +370,14 @@ def processRangeRequest (q : CondReq) (r : RespIn) (completeLength : Option Int)
 def makeConditionalStatus (method : Str) (q : CondReq) (r : RespIn) (completeLength : Option Int)
     (acceptRanges : Bool) : Option (Nat × RangeOutcome) :=
   if method == ['G', 'E', 'T'] || method == ['H', 'E', 'A', 'D'] then
-    match processRangeRequest q r completeLength acceptRanges with
-    | .unsatisfiable => none
-    | .partialContent a b => some (206, .partialContent a b)
-    | .notRange =>
-      if !isResourceModified q r.etag (lmOf r) true then
-        some (if (parseEtags q.im).truthy then 412 else 304, .notRange)
-      else some (200, .notRange)
+    -- preconditions first (64fcb6a), Range only for a response that would otherwise be 200
+    if !isResourceModified q r.etag (lmOf r) true then
+      some (if (parseEtags q.im).truthy then 412 else 304, .notRange)
+    else
+      match processRangeRequest q r completeLength acceptRanges with
+      | .unsatisfiable => none
+      | .partialContent a b => some (206, .partialContent a b)
+      | .notRange => some (200, .notRange)
   else some (200, .notRange)
 
 /-- the WSGI response of `Response(body).make_conditional(environ, accept_ranges, complete_length)`:
